@@ -209,6 +209,14 @@ EvalConstType(p, a, b) == Val((CASE p.ty = "int32" -> 1 [] p.ty = "int64" -> 2 [
 EvalSibLoops(p, a, b) == LET i == Clamp(a) j == Clamp(b) IN
   Val(CASE p.ret = "i-j" -> i - j [] p.ret = "j-i" -> j - i [] p.ret = "i+j" -> i + j [] OTHER -> i * 2 + j)
 
+\* "dectree":  if a > 0 { if C2 { return L1 } else { return L2 } } else { if C3 { return L3 } else { return L4 } }
+\* (a two-level decision tree: the shape on which a matcher that ignores control flow can be fooled by
+\* moving leaves or whole subtrees)
+Cond(c, a, b) == IF c = "b>0" THEN b > 0 ELSE a > b
+EvalDecTree(p, a, b) ==
+  IF a > 0 THEN (IF Cond(p.c2, a, b) THEN EvalE(p.l1, a, b, p.pres) ELSE EvalE(p.l2, a, b, p.pres))
+  ELSE (IF Cond(p.c3, a, b) THEN EvalE(p.l3, a, b, p.pres) ELSE EvalE(p.l4, a, b, p.pres))
+
 \* "extract":  x, y := dm(a, b)   (dm returns a+b, a-b);  return SEL*2 + SMALL   (a multi-value call: which result is used)
 EvalExtract(p, a, b) == Val((IF p.sel = "x" THEN a + b ELSE a - b) * 2 + p.small)
 
@@ -217,7 +225,7 @@ Eval(p, a, b) ==
     [] p.tpl = "sharedcmp" -> EvalSharedCmp(p, a, b) [] p.tpl = "fltbranch" -> EvalFltBranch(p, a, b)
     [] p.tpl = "extract" -> EvalExtract(p, a, b)
     [] p.tpl = "ubig" -> EvalUBig(p, a, b) [] p.tpl = "consttype" -> EvalConstType(p, a, b)
-    [] p.tpl = "sibloops" -> EvalSibLoops(p, a, b)
+    [] p.tpl = "sibloops" -> EvalSibLoops(p, a, b) [] p.tpl = "dectree" -> EvalDecTree(p, a, b)
     [] p.tpl = "orand" -> EvalOrAnd(p, a, b) [] p.tpl = "switch2" -> EvalSwitch2(p, a, b) [] p.tpl = "loop" -> EvalLoop(p, a, b)
     [] p.tpl = "bigconst" -> EvalBigConst(p, a, b)
     [] p.tpl = "loopbranch" -> EvalLoopBranch(p, a, b) [] p.tpl = "rangebranch" -> EvalRangeBranch(p, a, b) [] p.tpl = "strbranch" -> EvalStrBranch(p, a, b)
@@ -245,6 +253,8 @@ StrBranch == [tpl : {"strbranch"}, cmp : Cmps, lit : {2, 3}, elseE : {"b", "7"},
 BigConst == [tpl : {"bigconst"}, k1 : {1000, 2000, 17, -1000}, k2 : {100000, 50000}, small : {3, 5}, pres : {Plain}]
 UBig == [tpl : {"ubig"}, k : {"max", "max7", "hi16", "mid"}, small : {3, 5}, pres : {Plain}]
 ConstType == [tpl : {"consttype"}, ty : {"int32", "int64", "uint8"}, pres : {Plain}]
+Leaves == {"a+b", "b", "7"}
+DecTree == [tpl : {"dectree"}, c2 : {"b>0", "a>b"}, c3 : {"b>0", "a>b"}, l1 : Leaves, l2 : Leaves, l3 : Leaves, l4 : Leaves, pres : {Plain}]
 SibLoops == [tpl : {"sibloops"}, ret : {"i-j", "j-i", "i+j", "i*2+j"}, pres : {Plain}]
 
 SharedCmp == [tpl : {"sharedcmp"}, cmp : Cmps, rhs : {"b", "k"}, thenE : SExprs, elseE : SExprs, pres : {Plain}]
@@ -264,6 +274,7 @@ Alt(p, h) ==
     [] h = "lit" -> {2, 3}
     [] h \in {"thenE", "elseE"} -> IF p.tpl = "strbranch" THEN {"b", "7"} ELSE IF p.tpl \in {"sharedcmp", "fltbranch", "orand", "switch2"} THEN SExprs ELSE Exprs
     [] h = "k1" -> {1000, 2000, 17, -1000} [] h = "k" -> {"max", "max7", "hi16", "mid"}
+    [] h \in {"c2", "c3"} -> {"b>0", "a>b"} [] h \in {"l1", "l2", "l3", "l4"} -> Leaves
     [] h = "ty" -> {"int32", "int64", "uint8"} [] h = "ret" -> {"i-j", "j-i", "i+j", "i*2+j"}
     [] h = "k2" -> {100000, 50000} [] h = "small" -> {3, 5}
     [] h = "start" -> {0, 1} [] h = "step" -> {1, 2} [] h = "d" -> {1, 2} [] h = "c0" -> {0, 1}
